@@ -118,6 +118,26 @@ for kind in ("absent", True, False):
     if ST.get_treeflatten_memo() is not True: T.fail(f"set_treeflatten_memo:{kind}", "flag-True-afterwards")
     ST.clear_treeflatten_memo()
     if ST.get_treeflatten_memo() is not False: T.fail(f"clear_treeflatten_memo:{kind}", "flag-False-afterwards")
+# ---- shape_str: lists exactly the bindings in force (C13): every non-hidden axis, variadic and structure binding once, nothing else
+import itertools as _it
+names = ["n", "m", "~~delete~~(T) k"]
+for sig_keys in _it.chain.from_iterable(_it.combinations(names, r) for r in range(3)):
+    for nu_keys in _it.chain.from_iterable(_it.combinations(["n", "s", "~~delete~~(T) v"], r) for r in range(3)):
+        for pi_keys in ((), ("T",), ("T", "S")):
+            sig = {k: 3 + i for i, k in enumerate(sig_keys)}
+            nu = {k: (bool(i % 2), (4 + i, 5)) for i, k in enumerate(nu_keys)}
+            pi = {k: "PyTreeDef(%s)" % k for k in pi_keys}
+            T.case(("shape_str", sig_keys, nu_keys, pi_keys))
+            try:
+                out = ST.shape_str((sig, nu, pi, {"arg": 1}))
+            except BaseException as e:
+                T.fail(f"shape_str:{sig_keys}|{nu_keys}|{pi_keys}", "never-raises", actual=repr(e)); continue
+            lines = out.split("\n") if out else []
+            want = [f"{k}={v}" for k, v in sig.items() if not k.startswith("~~delete~~")] + [f"{k}={v[1]}" for k, v in nu.items() if not k.startswith("~~delete~~")] + [f"{k}={v}" for k, v in pi.items()]
+            got = [l for l in lines if "=" in l and not l.startswith("The current values")]
+            if sorted(got) != sorted(want):
+                T.fail(f"shape_str:sigma={list(sig_keys)}|nu={list(nu_keys)}|pi={list(pi_keys)}", "lists-exactly-the-bindings-in-force(each-axis,variadic-and-structure-binding-once;hidden-names-omitted)", expected=want, actual=got,
+                       snippet=f"import jaxtyping._storage as S; print(S.shape_str(({sig!r}, {nu!r}, {pi!r}, {{}})))")
 # ---- per-thread namespaces
 seen = {}
 def worker():
